@@ -324,7 +324,7 @@ def run(ctx):
     mods = ["SqiProps.C09"]
     if os.path.exists(os.path.join(vlib.LEAN, "SqiProps", "C09F.lean")):
         mods.append("SqiProps.C09F")
-    vlib.proof_stage(ctx, mods, searcher=lambda: search(ctx), extra_targets=("driver", "SqiProofs.VerifyBridge", "SqiProofs.VerifySim"))
+    vlib.proof_stage(ctx, mods, searcher=lambda: search(ctx), extra_targets=("driver", "SqiProofs.VerifyBridge"))
     levels = (1, 3, 5)
     exes = {}
     for l in levels:
